@@ -435,6 +435,61 @@ def stalled_reader(report, backend):
         relay.close()
 
 
+def pipelined_disconnect(report, backend, rng, tag):
+    """a client that pipelines its last command and its disconnect: both are already buffered when the handler reads, so the
+    connection ends before the sender task (or a query task) has run a single step.  Nothing may escape the handler, the
+    subscriptions go, and everybody else is served as before."""
+    relay = Relay(backend)
+    try:
+        watcher = Conn(relay, remote_addr="7.7.7.7")
+        watcher.send(["REQ", "w", {"kinds": [1]}])
+        stored = relay.signed_event(KEYS[0], kind=1, content="stored before %s %s" % (backend, tag), created_at=T0 + 100)
+        watcher.send_event(stored)
+        firsts = [["REQ", "s", {"kinds": [1]}], ["REQ", "s", {"kinds": [1]}, {"authors": ["zz"]}], ["REQ", "s", {"ids": ["nothex"]}],
+                  ["EVENT", relay.signed_event(KEYS[1], kind=1, content="last words %s %s" % (backend, tag), created_at=T0 + 200)],
+                  ["CLOSE", "nothing"], ["REQ", "a", {"kinds": [1]}], "not json"]
+        rng.shuffle(firsts)
+        for first in firsts[:4]:
+            c = Conn(relay, remote_addr="8.8.8.%d" % rng.randrange(1, 250), start=False)
+            burst = [first]
+            if rng.random() < 0.4:
+                burst.append(["REQ", "b", {"kinds": [1, 7]}])
+            for m in burst:
+                c.inbox.put_nowait(m if isinstance(m, str) else json.dumps(m))
+            c.inbox.put_nowait(DISCONNECT)          # already there when the handler starts reading
+            c.task = relay.loop.create_task(c._main())
+            relay.settle()
+            payload = {"backend": backend, "case": "pipelined-disconnect", "burst": burst}
+            if c.exc is not None:
+                report.property_failure("%s: %s escaped the connection handler of a client that sent %r and disconnected at once"
+                                        % (backend, type(c.exc).__name__, [b if isinstance(b, str) else b[0] for b in burst]), payload, None)
+            if not c.done:
+                report.property_failure("%s: the handler of a client that disconnected at once did not end" % backend, payload, None)
+            subs = relay.open_subscriptions()
+            left = [k for k, v in subs.items() if v and "w" not in v]
+            if left:
+                report.property_failure("%s: subscriptions of a client that disconnected at once survive it: %r" % (backend, subs), payload, None)
+            report.case(("pipelined", backend, tag, repr(burst)[:80]), nontrivial=True,
+                        sample={"case": "pipelined-disconnect", "backend": backend, "first": burst[0] if isinstance(burst[0], str) else burst[0][0]})
+            report.count("pipelined_disconnects")
+        # the others are served as before
+        ev = relay.signed_event(KEYS[2], kind=1, content="after the hasty clients %s %s" % (backend, tag), created_at=T0 + 300)
+        p = Conn(relay, remote_addr="4.4.4.4")
+        nw = len(watcher.out)
+        ok = p.send_event(ev)
+        if ok is not True or not any(isinstance(f, list) and f[0] == "EVENT" and f[2]["id"] == ev["id"] for f in watcher.frames(nw)):
+            report.property_failure("%s: after clients that disconnected at once, a fresh EVENT was not accepted and pushed" % backend,
+                                    {"backend": backend, "case": "pipelined-disconnect"}, None)
+        pending = [t for t in asyncio.all_tasks(relay.loop) if not t.done() and "run_query" in getattr(t.get_coro(), "__qualname__", "")]
+        if pending:
+            report.property_failure("%s: %d query task(s) of ended connections are still pending" % (backend, len(pending)),
+                                    {"backend": backend, "case": "pipelined-disconnect"}, None)
+        p.close()
+        watcher.close()
+    finally:
+        relay.close()
+
+
 KEYS = []
 
 
@@ -451,7 +506,8 @@ def run(report, tier, seed):
         "signed events with hostile field types and sizes; 20 raw texts (invalid JSON, NaN, 1e400, lone surrogate, 3000-deep nesting, "
         "100 kB id, 600 filters); with and without NIP-42; after every frame: probe REQ on the same and on a second connection, "
         "periodically a fresh EVENT that must be accepted and pushed to a watcher's two subscriptions; a subscriber that stops reading "
-        "while max_limit+12 events match it; non-trivial = the frame got an answer")
+        "while max_limit+12 events match it; clients whose last command(s) and disconnect are buffered together, so that the "
+        "connection ends before its sender or query task has run a step; non-trivial = the frame got an answer")
     report.assumptions += ["quiescence after every frame", "the websocket layer (falcon/uvicorn) is replaced by in-memory callables; "
                            "frame size limits of the real server are not in scope"]
     try:
@@ -459,6 +515,8 @@ def run(report, tier, seed):
         for backend in ("sql", "kv"):
             ladder_corr(report, drv, backend)
             stalled_reader(report, backend)
+            for i in range(2 if tier == "quick" else 25):
+                pipelined_disconnect(report, backend, rng, i)
         for backend in ("sql", "kv"):
             for auth in ((False,) if tier == "quick" and backend == "kv" else (False, True)):
                 robustness(report, drv, backend, auth, rng, tier)
